@@ -31,7 +31,9 @@
                  `while` loop; the assignments to the loop's locals are not part of it); `passBackMethod` = normalised text of `FortranReader.pass_back`,
                  `passBackFront` = it puts the line at the head of `pending` (`insert(0, line)`) rather than
                  behind it (`append`); `readDocstring` = normalised text of `sourceform.read_docstring`
-                 (-> `PassBack.readerOrder`, `PassBack.next`, `passBack`, `collectDocs`)
+                 (-> `PassBack.readerOrder`, `PassBack.next`, `passBack`, `collectDocs`);
+                 `splitSite` = the statements between the loop and the bottom pops (`quote_split(';', linebuffer)`,
+                 `pending.extend(...)`): `PassBack.tailRaw` / `Include.feedTailI` are their reading
 
 A construct that cannot be found or is not recognised raises (= "tie broken", never a pass).
 """
@@ -362,6 +364,14 @@ def queue_protocol():
             # an implementation choice (`done` / `while True: ... break`); their effect is tied by the step streams
             continue
         raise ValueError(f"FortranReader.__next__: unrecognised statement in front of the loop: {ast.unparse(st)[:80]!r}")
+    # between the loop and the pops at the bottom: the `;` split of the completed logical line
+    split_site = []
+    for st in body[loops[0] + 1:]:
+        if isinstance(st, ast.If):
+            break
+        split_site += ast.unparse(st).split("\n")
+    if not any("quote_split" in t for t in split_site):
+        raise ValueError(f"FortranReader.__next__: no quote_split between the loop and the pops: {split_site}")
     if sorted(order) != ["docbuffer", "pending"]:
         raise ValueError(f"FortranReader.__next__: the chain in front of the loop serves {order}, expected pending and docbuffer once each")
     # every other use of the queue: only __next__, include and pass_back may touch it
@@ -382,7 +392,7 @@ def queue_protocol():
                   and n.func.attr == "pass_back")
     if n_calls != 1:
         raise ValueError(f"ford/sourceform.py: pass_back is called {n_calls} times (the model knows read_docstring only)")
-    return order, text, pb, front, rtext
+    return order, text, pb, front, rtext, split_site
 
 
 def translate():
@@ -390,7 +400,7 @@ def translate():
     sites, guarded, itext, kw_loose = reader_queue()
     steps, nbsp, dbl = initial_steps()
     mloop = mask_loop()
-    qorder, qtext, pbtext, pbfront, rdtext = queue_protocol()
+    qorder, qtext, pbtext, pbfront, rdtext, split_site = queue_protocol()
     b = lambda v: "true" if v else "false"
     lines = ["/- GENERATED by translate/c02.py from ford/reader.py and ford/sourceform.py - do not edit -/",
              "import FordModel.InitSteps",
@@ -434,6 +444,7 @@ def translate():
     lines += strlist("passBackMethod", "`FortranReader.pass_back` (normalised source text)", pbtext)
     lines += ["/-- `pass_back` puts the line at the head of `pending` -/", "def passBackFront : Bool := %s" % b(pbfront), ""]
     lines += strlist("readDocstring", "`ford.sourceform.read_docstring` (normalised source text)", rdtext)
+    lines += strlist("splitSite", "the statements of `FortranReader.__next__` between the `while` loop and the pops at its bottom (normalised source text): what becomes of the completed logical line", split_site)
     lines += ["end Ford.Generated.C02", ""]
     common.write_if_changed(OUT, "\n".join(lines))
     return rx, steps, nbsp, dbl, mloop, sites, guarded
